@@ -128,6 +128,12 @@ func (gc *GarbageCollector) GarbageCollectWatchesNow(ctx context.Context) error 
 
 	stop := make([]engine.WatchID, 0)
 	for _, wid := range running {
+		// Only watches of composed resources are garbage collected. The
+		// controller's watches of the XRs themselves and of composition
+		// revisions are never in the used set, and must never be stopped.
+		if wid.Type != engine.WatchTypeComposedResource {
+			continue
+		}
 		if !used[wid] {
 			stop = append(stop, wid)
 		}
